@@ -2,6 +2,7 @@ package cache
 
 import (
 	"context"
+	"sync/atomic"
 	"time"
 )
 
@@ -22,23 +23,34 @@ type (
 // This is necessary to unite ttl requirements of multiple parties.
 func WithTTL(ctx context.Context, ttl time.Duration, updateExisting bool) context.Context {
 	if updateExisting {
-		if existing, ok := ctx.Value(ttlCtxKey{}).(*time.Duration); ok {
-			if ttl != 0 && (*existing == 0 || *existing > ttl) {
-				*existing = ttl
+		// The ttl is updated atomically: value builder may run in a background goroutine while the owner
+		// of the context reads the ttl.
+		if existing, ok := ctx.Value(ttlCtxKey{}).(*int64); ok {
+			for ttl != 0 {
+				cur := atomic.LoadInt64(existing)
+				if cur != 0 && cur <= int64(ttl) {
+					break
+				}
+
+				if atomic.CompareAndSwapInt64(existing, cur, int64(ttl)) {
+					break
+				}
 			}
 
 			return ctx
 		}
 	}
 
-	return context.WithValue(ctx, ttlCtxKey{}, &ttl)
+	v := int64(ttl)
+
+	return context.WithValue(ctx, ttlCtxKey{}, &v)
 }
 
 // TTL retrieves cache time to live from context, zero value is returned by default.
 func TTL(ctx context.Context) time.Duration {
-	ttl, ok := ctx.Value(ttlCtxKey{}).(*time.Duration)
+	ttl, ok := ctx.Value(ttlCtxKey{}).(*int64)
 	if ok {
-		return *ttl
+		return time.Duration(atomic.LoadInt64(ttl))
 	}
 
 	return 0
